@@ -250,6 +250,48 @@ fn check_history(h: &History) -> CaseResult {
     pass(true, if h.inject.is_empty() { "os-rng" } else { "injected" })
 }
 
+/// One Exchange object driven through several ephemeral-scalar-drawing steps (1 = exchange_1, 2 = exchange_2 with a fresh R_A).
+#[derive(Serialize, Deserialize, Hash, Debug, Clone)]
+pub struct Reuse {
+    pub steps: Vec<u8>,
+    pub seed: u64,
+}
+
+fn check_reuse(c: &Reuse) -> CaseResult {
+    let n2 = &r2::params().n;
+    let (da, db) = (sm2_key(c.seed % 5), sm2_key(c.seed % 5 + 7));
+    let mk = |e: String| Fail { key: "harness: key construction".into(), detail: e };
+    let (pa, pb) = (lib_pk(&r2::g_mul(&da)).map_err(mk)?, lib_pk(&r2::g_mul(&db)).map_err(mk)?);
+    let ska = lib_sk(&da).map_err(mk)?;
+    let mut ex = Exchange::new(16, Some("alice"), &pa, &ska, Some("bob"), &pb).map_err(|e| Fail { key: "entry=Exchange::new input=valid outcome=err".into(), detail: format!("{:?}", e) })?;
+    let mut used: Vec<BigUint> = Vec::new();
+    for (i, st) in c.steps.iter().enumerate() {
+        gm_sm2::verif_hooks::start_recording();
+        let name = if *st == 1 { "exchange_1" } else { "exchange_2" };
+        let r = catch(|| {
+            if *st == 1 {
+                ex.exchange_1().map_err(|e| format!("{:?}", e))
+            } else {
+                let ra = lib_point(&r2::g_mul(&BigUint::from((c.seed << 8 | i as u64) | 1)), &BigUint::one());
+                ex.exchange_2(&ra).map(|v| v.0).map_err(|e| format!("{:?}", e))
+            }
+        });
+        let rec: Vec<BigUint> = gm_sm2::verif_hooks::take_recorded().iter().map(|l| from_limbs(l)).collect();
+        let point = match r {
+            Ok(Ok(p)) => p,
+            Ok(Err(e)) => return fail(format!("entry=Exchange::{} input=valid outcome=err", name), e),
+            Err(p) => return fail(format!("entry=Exchange::{} outcome=panic", name), p),
+        };
+        ensure!(!rec.is_empty(), format!("entry=Exchange::{} input=object-reused outcome=no-fresh-scalar-drawn", name), "step {} of {:?} on one Exchange object did not draw a scalar from the generator", i, c.steps);
+        let k = rec.last().unwrap().clone();
+        let pt = ref_point(&point).map_err(|e| Fail { key: format!("entry=Exchange::{} outcome=non-canonical", name), detail: e })?;
+        ensure!(pt == r2::g_mul(&(&k % n2)), format!("entry=Exchange::{} input=object-reused outcome=recorded!=used", name), "step {}: the point sent is not [r]G for the scalar drawn in this step", i);
+        ensure!(!used.contains(&k), format!("entry=Exchange::{} input=object-reused outcome=scalar-repeated", name), "step {} of {:?} reuses the ephemeral scalar {:x}", i, c.steps, k);
+        used.push(k);
+    }
+    pass(true, format!("steps={:?}", c.steps))
+}
+
 #[derive(Serialize, Deserialize, Hash, Debug, Clone)]
 pub struct Stat {
     pub kind: Kind,
@@ -318,6 +360,19 @@ pub fn run(ctx: &Ctx) {
         let op = (prop_oneof![5 => 0..5usize, 1 => 5..13usize], any::<u64>()).prop_map(|(k, seed)| Op { kind: ALL_KINDS[k], seed });
         prop::collection::vec(op, 1..6).prop_map(|ops| History { ops, inject: vec![] })
     }, check_history);
+
+    ctx.exhaustive("exchange_object_reuse", "one SM2 Exchange object driven through every sequence of 2..=3 scalar-drawing steps (exchange_1 / exchange_2 with fresh R_A): every step draws a fresh scalar and uses it", || {
+        let mut v = Vec::new();
+        for len in 2..=3u32 {
+            for m in 0..(1u32 << len) {
+                let steps: Vec<u8> = (0..len).map(|i| if m >> i & 1 == 1 { 2 } else { 1 }).collect();
+                for seed in 0..3u64 {
+                    v.push(Reuse { steps: steps.clone(), seed });
+                }
+            }
+        }
+        v
+    }, check_reuse);
 
     ctx.listed_seq("bit_balance", "per operation: ones-count of every bit position within 8 sigma of the exact uniform expectation", || ALL_KINDS.iter().map(|k| Stat { kind: *k }).collect(), check_stats);
     ctx.listed_seq("global_freshness", "no scalar value occurs twice among all observed scalars of the run", || vec![0u8], check_global_freshness);
